@@ -59,7 +59,7 @@ Perp(v) == <<v[2], -v[1]>>      \* |v| * Surface.compute_normal(edge): tangent t
 CppN(a, b, p) == Dot(Sub(b, a), Sub(p, a))
 CppD(a, b)    == N2(Sub(b, a))
 CppT(a, b, p) == LET n == CppN(a, b, p) d == CppD(a, b) IN IF n < 0 THEN 0 ELSE IF n > d THEN d ELSE n
-PointAt(a, b, s) == <<CppD(a, b) * a[1] + s * (b[1] - a[1]), CppD(a, b) * a[2] + s * (b[2] - a[2])>>  \* d * (a + (s/d) v)
+PointAt(a, b, s) == LET d == CppD(a, b) IN <<d * a[1] + s * (b[1] - a[1]), d * a[2] + s * (b[2] - a[2])>>  \* d * (a + (s/d) v)
 CppQ(a, b, p) == PointAt(a, b, CppT(a, b, p))
 \* d^2 * |p - x(s/d)|^2
 D2At(a, b, p, s) == LET d == CppD(a, b) IN N2(Sub(<<d * p[1], d * p[2]>>, PointAt(a, b, s)))
@@ -67,7 +67,7 @@ D2At(a, b, p, s) == LET d == CppD(a, b) IN N2(Sub(<<d * p[1], d * p[2]>>, PointA
 \* specification: nearest point of the segment.  The distance is a convex quadratic in the
 \* parameter, its minimiser over [0,1] has an integer numerator over d, hence comparing with every
 \* s/d, s in 0..d, is exact; Optimal is the first-order (KKT) certificate over the reals.
-IsClosest(a, b, p) == \A s \in 0..CppD(a, b) : D2At(a, b, p, CppT(a, b, p)) <= D2At(a, b, p, s)
+IsClosest(a, b, p) == LET best == D2At(a, b, p, CppT(a, b, p)) IN \A s \in 0..CppD(a, b) : best <= D2At(a, b, p, s)
 Optimal(a, b, p) ==
   LET d == CppD(a, b) t == CppT(a, b, p) v == Sub(b, a)
       r == Sub(<<d * p[1], d * p[2]>>, PointAt(a, b, t))     \* d (p - x*)
@@ -115,27 +115,31 @@ In01(n, d) == (d > 0 /\ 0 <= n /\ n <= d) \/ (d < 0 /\ d <= n /\ n <= 0)
 \* implementation-shaped (compute_intersection): project the end points of A onto B and of B onto A
 \* along the common normal; keep the candidates with both parameters in [0,1]; overlap = [min,max]
 \* of the valid xiA.  xa = numerator of xiA over dA; xiB = xbn/xbd.
-Cands(P) == << [xa |-> 0,      xbn |-> 0 - SB1(P),     xbd |-> EB(P)],
-               [xa |-> DA(P),  xbn |-> DA(P) - SB1(P), xbd |-> EB(P)],
-               [xa |-> SB1(P), xbn |-> 0,              xbd |-> 1],
-               [xa |-> SB2(P), xbn |-> 1,              xbd |-> 1] >>
-Good(P, c) == 0 <= c.xa /\ c.xa <= DA(P) /\ In01(c.xbn, c.xbd)
+Cands(P) ==
+  LET sb1 == SB1(P) sb2 == SB2(P) d == DA(P) e == sb2 - sb1
+  IN << [xa |-> 0,   xbn |-> 0 - sb1, xbd |-> e],
+        [xa |-> d,   xbn |-> d - sb1, xbd |-> e],
+        [xa |-> sb1, xbn |-> 0,       xbd |-> 1],
+        [xa |-> sb2, xbn |-> 1,       xbd |-> 1] >>
+Good(d, c) == 0 <= c.xa /\ c.xa <= d /\ In01(c.xbn, c.xbd)
 ImplOv(P) ==
-  LET G == {i \in 1..4 : Good(P, Cands(P)[i])}
-  IN IF G = {} THEN <<0, 0>> ELSE <<SetMin({Cands(P)[i].xa : i \in G}), SetMax({Cands(P)[i].xa : i \in G})>>
+  LET cs == Cands(P) d == DA(P)
+      G == {cs[i].xa : i \in {i \in 1..4 : Good(d, cs[i])}}
+  IN IF G = {} THEN <<0, 0>> ELSE <<SetMin(G), SetMax(G)>>
 \* specification-shaped: measure of the common shadow of the two segments
 SpecOv(P) ==
-  LET lo == Max(0, Min(SB1(P), SB2(P))) hi == Min(DA(P), Max(SB1(P), SB2(P)))
-  IN IF EB(P) # 0 /\ lo <= hi THEN <<lo, hi>> ELSE <<0, 0>>
-OvLen(P) == ImplOv(P)[2] - ImplOv(P)[1]          \* overlap length = OvLen * sqrt(dA) / dA
-SpecLen(P) == SpecOv(P)[2] - SpecOv(P)[1]
+  LET sb1 == SB1(P) sb2 == SB2(P)
+      lo == Max(0, Min(sb1, sb2)) hi == Min(DA(P), Max(sb1, sb2))
+  IN IF sb1 # sb2 /\ lo <= hi THEN <<lo, hi>> ELSE <<0, 0>>
+OvLen(P) == LET ov == ImplOv(P) IN ov[2] - ov[1]          \* overlap length = OvLen * sqrt(dA) / dA
+SpecLen(P) == LET ov == SpecOv(P) IN ov[2] - ov[1]
 
 \* signed gap of parallel segments along the normal of A: GapNum / sqrt(dA)
 GapNum(P) == Dot(Sub(P.B[1], P.A[1]), Perp(VA(P)))
 
 \* mortar integrals of parallel segments (units in the comments; dA = |vA|^2)
 Integrals(P) ==
-  LET lo == ImplOv(P)[1] hi == ImplOv(P)[2]
+  LET ov == ImplOv(P) lo == ov[1] hi == ov[2]
   IN [ len  |-> hi - lo,                              \* int 1        = len  * sqrt(dA) / dA
        area |-> GapNum(P) * (hi - lo),                \* int g        = area / dA
        mxa  |-> hi * hi - lo * lo,                    \* int xiA      = mxa  * sqrt(dA) / (2 dA^2)
@@ -318,19 +322,20 @@ OverlapIsCommonShadow ==
 DisjointVanish ==
   (q.kind = "pair" /\ HasExact(q) /\ OvKind(q) \in {"none", "touch", "perp"}) =>
      /\ OvLen(q) = 0
-     /\ (Parallel(q) => Integrals(q).len = 0 /\ Integrals(q).area = 0 /\ Integrals(q).mxa = 0 /\ Integrals(q).mxb = 0)
+     /\ (Parallel(q) => LET I == Integrals(q) IN I.len = 0 /\ I.area = 0 /\ I.mxa = 0 /\ I.mxb = 0)
 \* "non-negative for non-negative integrands": the measure and the weighted measures are >= 0
 MeasureNonNegative ==
   (q.kind = "pair" /\ HasExact(q)) =>
      /\ OvLen(q) >= 0
-     /\ (Parallel(q) => Integrals(q).mxa >= 0 /\ Integrals(q).mxb * Sgn(EB(q)) >= 0)
+     /\ (Parallel(q) => LET I == Integrals(q) IN I.mxa >= 0 /\ I.mxb * Sgn(I.eb) >= 0)
 \* "for parallel segments reproduce the overlap length and gap area": a proper overlap has the
 \* positive length of the common shadow and area = gap * length
 ParallelExact ==
   (q.kind = "pair" /\ Parallel(q) /\ HasExact(q)) =>
-     /\ (OvKind(q) \in {"partial", "nested", "equal"} => OvLen(q) > 0)
-     /\ OvLen(q) <= Min(DA(q), Abs(EB(q)))
-     /\ Integrals(q).area = GapNum(q) * SpecLen(q)
+     LET I == Integrals(q)
+     IN /\ (OvKind(q) \in {"partial", "nested", "equal"} => I.len > 0)
+        /\ I.len <= Min(I.da, Abs(I.eb))
+        /\ I.area = GapNum(q) * SpecLen(q)
 \* chains: nodal areas are non-negative and add up to the common length of the two surfaces
 ChainPartition ==
   q.kind = "chain" => /\ \A x \in q.xb : NodalArea24(q, x) >= 0
